@@ -80,7 +80,11 @@ class LibMixin:
             conc = self.unbox_known(st, items[0], e.get('Args')[1])
             if isinstance(conc, ArrayV) and getattr(conc, 'sha_of', None) is not None:
                 return self.string_with_ident(st, sha256hex(conc.sha_of), length=64)
-        raise Unsupported('Sprintf format %r' % fmt_.lit)
+        # any other format: some string (its bytes are not modelled)
+        self.assumed.add('fmt.Sprintf returns a string and has no effect on the program state (String/Error methods of the operands are assumed pure)')
+        a = fresh('sprintf.arr', ArrII); n = fresh('sprintf.len'); k = fresh('k!wf')
+        st.assume(z3.And(n >= 0, z3.ForAll([k], z3.And(z3.Select(a, k) >= 0, z3.Select(a, k) <= 255))))
+        return StrV(a, z3.IntVal(0), n)
 
     def unbox_known(self, st, iface, argnode):
         """the concrete value boxed at this call site (the boxing happened in coerce_args, so it is re-evaluated)"""
